@@ -21,7 +21,7 @@ def build_and_run(name, srcs, flags, outdir, libs=('-licuuc', '-licudata')):
 def gen(force=False):
     """returns (ok, info dict). Writes Tables.lean only when its content changes (keeps lake incremental)."""
     srcs = repo_sources()
-    mine = [os.path.join(VERIF, 'harness', f) for f in ('gen_tables.cpp', 'gen_idna.cpp', 'icu_shim.h')] + [os.path.abspath(__file__)]
+    mine = [os.path.join(VERIF, 'harness', f) for f in ('gen_tables.cpp', 'gen_idna.cpp', 'icu_shim.h', 'cfg_driver.cpp')] + [os.path.abspath(__file__)]
     key = sha_files(srcs + mine)
     outdir = os.path.join(CACHE, 'g_' + key)
     target = os.path.join(LEAN, 'Upa', 'Gen', 'Tables.lean')
@@ -40,10 +40,18 @@ def gen(force=False):
             pidna = subprocess.Popen(['g++', '-O1', '-std=c++17', '-I' + os.path.join(REPO, 'include'), '-include', os.path.join(VERIF, 'harness', 'icu_shim.h'),
                                       os.path.join(REPO, 'src', 'url_idna.cpp'), '-c', '-o', os.path.join(outdir, 'url_idna_shim.o')], stdout=subprocess.PIPE, stderr=subprocess.STDOUT, text=True)
             # globals: plain objects of the library
+            # the six library translation units in the oldest and a recent language mode (their code differs: tables
+            # vs constexpr, string_view flavours), and one translation unit of USER code that instantiates the header
+            # templates (harness/cfg_driver.cpp uses every public entry point): a writable function-local static in a
+            # header template shows up there, not in the library objects
             pobj = {}
             for f in LIB_SRCS:
-                o = os.path.join(outdir, 'plain_' + f + '.o')
-                pobj[f] = (o, subprocess.Popen(['g++', '-O2', '-std=c++17', '-I' + os.path.join(REPO, 'include'), '-c', os.path.join(REPO, 'src', f), '-o', o], stdout=subprocess.PIPE, stderr=subprocess.STDOUT, text=True))
+                for m in ('c++17', 'c++11'):
+                    o = os.path.join(outdir, 'plain_%s_%s.o' % (m.replace('+', 'p'), f))
+                    pobj[f + ('' if m == 'c++17' else '@' + m)] = (o, subprocess.Popen(['g++', '-O2', '-std=' + m, '-I' + os.path.join(REPO, 'include'), '-c', os.path.join(REPO, 'src', f), '-o', o], stdout=subprocess.PIPE, stderr=subprocess.STDOUT, text=True))
+            for m in ('c++17', 'c++11'):
+                o = os.path.join(outdir, 'user_%s.o' % m.replace('+', 'p'))
+                pobj['<user code>' + ('' if m == 'c++17' else '@' + m)] = (o, subprocess.Popen(['g++', '-O2', '-w', '-std=' + m, '-I' + os.path.join(REPO, 'include'), '-c', os.path.join(VERIF, 'harness', 'cfg_driver.cpp'), '-o', o], stdout=subprocess.PIPE, stderr=subprocess.STDOUT, text=True))
             for m, (exe, p) in procs.items():
                 o, _ = p.communicate()
                 if p.returncode != 0:
@@ -80,7 +88,9 @@ def gen(force=False):
                     # read-only data (.data.rel.ro*) is mapped read-only after relocation
                     base = sec.split('.')[1] if '.' in sec else sec
                     if base in ('data', 'bss', 'tdata', 'tbss') and not sec.startswith('.data.rel.ro'):
-                        writable.append(f + ':' + sym)
+                        if f.startswith('<user code>') and 'upa::' not in sym: continue   # the driver's own globals
+                        name = f.split('@')[0] + ':' + sym
+                        if name not in writable: writable.append(name)
                         if sym.startswith('guard variable for') and 'get_uidna' in sym: guard_once = True
             info['writable'] = sorted(writable)
             info['guard_once'] = guard_once
@@ -102,6 +112,7 @@ def gen(force=False):
         L.append('def %s_hexnum : List Nat := [%s]' % (mm, ', '.join(d['hexnum'][0].split())))
         L.append('def %s_pctbyte_ok : Bool := %s' % (mm, 'true' if d['pctbyte'][0].strip() == '1' else 'false'))
         L.append('def %s_widemembers : Nat := %s' % (mm, d['widemembers'][0]))
+        L.append('def %s_earlydiff : Nat := %s' % (mm, d['earlydiff'][0].split()[0]))
         L.append('def %s_partstart : List Nat := [%s]' % (mm, ', '.join(d['partstart'][0].split())))
         sch = []
         for v in d['schemeinfo']:
